@@ -479,6 +479,9 @@ def t_edit_index_roundtrip(E):
     # ASSUMED of the kernel (see the docstring): its empty update discards nothing
     ubc = E.ctx.fn("update_bwd_constraint", U, U)
     E.assume(ubc(T.edit_bwd(*a2)) == T.EMPTY)
+    E.ctx.notes.append("ASSUMED of the scan kernel (C06.Scan.edit_index round trip): its EMPTY update discards nothing (backward constraint "
+                       "= the empty choice map) - true of distributions and static functions over them, false of a kernel whose "
+                       "address structure depends on the carry")
     k2 = key(E, "key2")
     st2, val2 = E.attempt(lambda: E.method(sc, "edit", k2, new, bwd, ad))
     if st2 != "ok":
